@@ -82,11 +82,38 @@ def build(t, fam, max_t, use_mra, n_workers):
                 use_mra = False
             spec = gen_sched.SchedSpec(fam, "HyperbandScheduler", kw, dict(cs))
             spec.pause_resume = typ == "promotion"
+        _restrict(t, spec, cs, dup)
         return spec, cs, use_mra
     spec = gen_sched.gen_sched(t, cs, max_t=max_t, max_resource_attr="epochs" if use_mra else None, families=[fam], n_workers=n_workers)
     if dup and spec.kwargs.get("searcher") == "random":
         spec.kwargs["search_options"] = dict(spec.kwargs.get("search_options") or {}, allow_duplicates=True)
+    _restrict(t, spec, cs, dup)
     return spec, cs, use_mra
+
+
+def _restrict(t, spec, cs, dup):
+    """``restrict_configurations`` (random and GP searchers, finite spaces only): suggestions are drawn from a given list through a
+    separate code path (``_get_random_config_from_restrict_configurations``), which has its own handling of the exclusion list."""
+    from syne_tune.config_space import Categorical, Integer
+
+    if spec.kwargs.get("searcher") not in ("random", "bayesopt") or spec.family == "fifo-grid":
+        return
+    hps = {k: v for k, v in cs.items() if k != "epochs"}
+    if not all(isinstance(v, (Categorical, Integer)) for v in hps.values()):
+        return
+    if not t.chance(1, 2 if dup else 4):
+        return
+    import itertools
+
+    names = sorted(hps)
+    values = [list(hps[k].categories) if isinstance(hps[k], Categorical) else list(range(hps[k].lower, hps[k].upper + 1)) for k in names]
+    grid = [dict(zip(names, v)) for v in itertools.product(*values)]
+    keep = [c for c in grid if t.chance(2, 3)]
+    if len(keep) < 2:
+        keep = grid[:2]
+    extra = {k: v for k, v in cs.items() if k == "epochs"}
+    spec.kwargs["search_options"] = dict(spec.kwargs.get("search_options") or {}, restrict_configurations=[dict(c, **extra) for c in keep])
+    spec.restricted = True
 
 
 def run_protocol(t, fam, controller=None, fixed=None):
@@ -125,6 +152,8 @@ def run_protocol(t, fam, controller=None, fixed=None):
     labels = {fam}
     if (spec.kwargs.get("search_options") or {}).get("allow_duplicates"):
         labels.add("allow-duplicates")
+    if getattr(spec, "restricted", False):
+        labels.add("restrict-configurations")
     failed_cfg = {}
     cfg_of = {}
     no_repeat = fam in ("fifo-random", "fifo-grid", "fifo-bo", "hb-stopping", "hb-promotion", "hb-pasha", "hb-bo-stopping", "hb-bo-promotion", "sync-hb")
